@@ -12,6 +12,7 @@ too, but only as advisory information.
 import asyncio
 import asyncio.events as aio_events
 import json
+import time
 
 import os
 
@@ -20,6 +21,14 @@ import common
 # 1 = model of the repaired code (fixes/C18-put-waiter-cancelled.patch); 0 only to validate the
 # faithful pre-fix model against a pre-fix tree
 MODEL_FIXED = int(os.environ.get("VERIF_C18_MODEL_FIXED", "1"))
+
+# quick tier: no new batch of schedules is started once this many seconds have passed since
+# the check began (build included); what was cut is recorded in the evidence
+QUICK_DEADLINE = float(os.environ.get('VERIF_QUICK_DEADLINE', '60'))
+
+
+def over_deadline(ctx):
+    return ctx.tier == 'quick' and time.time() - ctx.t0 > QUICK_DEADLINE
 
 # --------------------------------------------------------------------------- event loop
 
@@ -415,12 +424,14 @@ def random_schedule(falcon, rng, cap, sent, nsteps):
     return run_real(falcon, cap, sent, chooser=choose, max_steps=nsteps + 30)
 
 
-def exhaustive(falcon, cap, sent, depth, limits, budget, out, flush=None):
+def exhaustive(falcon, cap, sent, depth, limits, budget, out, flush=None, stop=None):
     """all schedules of at most [depth] labels (application calls limited by [limits]:
     receives, sends, closes, cancels), by re-execution of prefixes"""
     stack = [()]
     n = 0
     while stack and n < budget:
+        if stop is not None and n >= 500 and n % 100 == 0 and stop():
+            break
         prefix = stack.pop()
         res = run_real(falcon, cap, sent, labels=list(prefix))
         en = res['enabled_end']
@@ -636,7 +647,8 @@ def main(ctx):
         state['any_clause'] |= nb > 0
         corr_all.extend(corr)
     for cap, sent, depth, limits, budget in bounds:
-        complete &= exhaustive(falcon, cap, sent, depth, limits, budget, ex_runs, flush)
+        complete &= exhaustive(falcon, cap, sent, depth, limits, budget, ex_runs, flush,
+                               stop=lambda: over_deadline(ctx))
         flush(ex_runs)
         del ex_runs[:]
     any_clause = state['any_clause']
@@ -645,12 +657,18 @@ def main(ctx):
     # 2. random schedules
     n = 5000 if quick else 50000
     runs = []
+    done = 0
+    last = None
     for i in range(n):
+        if i >= 800 and i % 100 == 0 and over_deadline(ctx):
+            break
         cap = ctx.rng.choice([0, 1, 1, 2, 2, 3, 4])
         sent = gen_sent(ctx.rng, 8)
         res = random_schedule(falcon, ctx.rng, cap, sent, ctx.rng.randint(4, 34))
         runs.append((cap, sent, res))
-        if len(runs) >= 2500:
+        last = runs[-1]
+        done += 1
+        if len(runs) >= 800:
             nb, corr = judge(ctx, model, runs, 'rnd')
             any_clause |= nb > 0
             corr_all += corr
@@ -659,8 +677,11 @@ def main(ctx):
         nb, corr = judge(ctx, model, runs, 'rnd')
         any_clause |= nb > 0
         corr_all += corr
-        ctx.sample({'cap': runs[-1][0], 'sent': runs[-1][1],
-                    'schedule': ' '.join(lab_str(l) for l in runs[-1][2]['labels'])})
+    if last is not None:
+        ctx.sample({'cap': last[0], 'sent': last[1],
+                    'schedule': ' '.join(lab_str(l) for l in last[2]['labels'])})
+    ctx.cov['random_schedules'] = {'planned': n, 'run': done,
+                                   'cut_by_deadline_s': QUICK_DEADLINE if done < n else None}
     report_corr(ctx, corr_all, any_clause)
 
 
